@@ -14,8 +14,6 @@ Open Scope Z_scope.
 Definition cls_of_code (z:Z) : option cls :=
   match z with 0 => Some NumericMem | 1 => Some CategoricalMem | 2 => Some TimestampMem
              | 3 => Some NumericH5 | 4 => Some CategoricalH5 | 5 => Some TimestampH5 | _ => None end.
-Definition all_bops : list bop :=
-  [Add; Sub; Mul; TrueDiv; FloorDiv; Mod; DivMod; And; Or; Xor; Lt; Le; Eq; Ne; Gt; Ge].
 Definition bop_of_code (z:Z) : option bop := find (fun o => bop_code o =? z) all_bops.
 Definition uop_of_code (z:Z) : option uop :=
   match z with 16 => Some Invert | 17 => Some LogicalNot | _ => None end.
